@@ -88,6 +88,14 @@ def showState (s : State) : String :=
   let opt := match s.opts.getLast? with | some o => toString o.2 | none => "-"
   s!"h={s.last} A[{accs}] I[{invs}] R[{reqs}] P[{pend}] K[{showNats (sortDedup s.keys)}] cur={s.curKey} O={opt}"
 
+/-- reduced observation used for the non-validating stream: only what the real code exposes through
+lookups by key (zero-valued map entries have no usable PubKey / Id field to print) -/
+def showStateNV (s : State) : String :=
+  let perms := showNats ((List.range 8).map s.perm)
+  let pend := join "," ((List.range 8).map fun a => match s.pending.find? a with | some r => toString r | none => "-")
+  let opt := match s.opts.getLast? with | some o => toString o.2 | none => "-"
+  s!"h={s.last} perms={perms} pend={pend} ninv={s.invites.length} nreq={s.requests.length} K[{showNats (sortDedup s.keys)}] cur={s.curKey} O={opt}"
+
 abbrev St := Option State
 
 def init : St := none
@@ -96,7 +104,7 @@ def doRec (v : Bool) (st : St) (a p : String) (rest : List String) : St × Strin
   match st, a.toNat?, p.toNat?, parseContents rest with
   | some s, some author, some prev, some cs =>
     match applyRecord cfg v s (s.last + 1) ⟨author, prev, cs⟩ with
-    | .ok s' => (some s', "ok " ++ showState s')
+    | .ok s' => (some s', "ok " ++ (if v then showState s' else showStateNV s'))
     | .error e => (some s, "err " ++ showErr e)
   | _, _, _, _ => (st, "bad-op")
 
@@ -107,6 +115,12 @@ def step1 (st : St) (toks : List String) : St × String :=
     | some owner, some hasOpt =>
       let s := applyRoot owner (if hasOpt then some 1 else none)
       (some s, "ok " ++ showState s)
+    | _, _ => (st, "bad-op")
+  | ["rootn", o, h] =>
+    match o.toNat?, bool? h with
+    | some owner, some hasOpt =>
+      let s := applyRoot owner (if hasOpt then some 1 else none)
+      (some s, "ok " ++ showStateNV s)
     | _, _ => (st, "bad-op")
   | "rec" :: a :: p :: rest => doRec true st a p rest
   | "recn" :: a :: p :: rest => doRec false st a p rest
